@@ -2,7 +2,7 @@
 
 use crate::install::error::InstallError;
 use binrw::{BinRead, BinResult, BinWrite};
-use std::io::{Read, Seek, Write};
+use std::io::{Read, Seek, SeekFrom, Write};
 
 /// Tag types used to categorize files in install manifests
 #[derive(Debug, Clone, Copy, PartialEq, Eq, Hash)]
@@ -221,8 +221,19 @@ impl BinRead for InstallTag {
             err: Box::new(InstallError::InvalidTagType(tag_type_value)),
         })?;
 
-        // Read bit mask
+        // Read bit mask. Its size derives from the header's entry count, so
+        // make sure the input actually holds that many bytes before
+        // allocating the buffer.
         let bit_mask_size = (entry_count as usize).div_ceil(8);
+        let pos = reader.stream_position()?;
+        let end = reader.seek(SeekFrom::End(0))?;
+        reader.seek(SeekFrom::Start(pos))?;
+        if bit_mask_size as u64 > end.saturating_sub(pos) {
+            return Err(binrw::Error::Io(std::io::Error::new(
+                std::io::ErrorKind::UnexpectedEof,
+                "failed to fill whole buffer",
+            )));
+        }
         let mut bit_mask = vec![0u8; bit_mask_size];
         reader.read_exact(&mut bit_mask)?;
 
